@@ -786,6 +786,10 @@ class Interp:
             v = self.rv(V(e['init'])) if e.get('init') is not None else None
             if isinstance(v, Rec) and not (e.get('ft') or '').rstrip().endswith('&'):
                 v = copy_rec(v)              # a reference member aliases the object, a value member copies it
+            if e.get('field') is None:
+                if isinstance(v, Rec):
+                    this.update(v)           # a base-class initialiser: the base sub-object's members are members of this object
+                return
             this[e['field']] = v
             return
         if k in ('CallExpr', 'CXXMemberCallExpr', 'CXXOperatorCallExpr'):
@@ -816,6 +820,9 @@ class Interp:
             self.broken(fn, e, 'placement new at a %s' % type(tgt).__name__)
         if k == 'CXXPseudoDestructorExpr' or (k in ('CXXMemberCallExpr', 'CallExpr') and (e.get('fq') or '').endswith('::~')):
             val[i] = None
+            return
+        if k == 'CXXDefaultArgExpr':
+            val[i] = e.get('v') if e.get('v') is not None else (V(e['defarg']) if e.get('defarg') is not None else Op())
             return
         if k in ('AttributedStmt', 'NullStmt', 'AutoDtor', 'TempDtor', 'MemberDtor', 'BaseDtor', 'DeleteDtor', 'LifetimeEnds', 'ScopeEnd', 'ScopeBegin'):
             return
